@@ -12,6 +12,67 @@ use crate::{
     world::{Lane, Op, RunEnd},
 };
 
+/// Stateless resets carrying reset tokens that are no longer in use. A connection is told a token
+/// with every NEW_CONNECTION_ID it receives and registers the one of the CID it currently sends to
+/// with its endpoint. Tokens of CIDs it has retired, and every token of a connection that has
+/// drained, must route nowhere: not to the forgotten handle, not to whoever took over its slot,
+/// and a retired token must not end a connection that is still alive.
+fn retired_token_phase(w: &mut crate::world::World, r: &mut Rng, lane: Lane) {
+    if lane != Lane::Null {
+        return; // (frames are only readable on the plaintext lane)
+    }
+    let seen: Vec<((usize, u64), crate::mon::NciSeen)> = w.mon.nci_seen.iter().map(|(k, v)| (*k, v.clone())).collect();
+    let alive_before: Vec<(usize, usize, usize)> = w.eps.iter().enumerate().flat_map(|(ei, e)| e.conns.iter().filter(|(_, c)| !c.c.is_closed() && !c.c.is_drained() && c.app.lost_count == 0).map(move |(ch, c)| (ei, *ch, c.app.lost_count as usize))).collect();
+    let mut at = w.now + 1_000_000;
+    let mut injected = 0;
+    for ((ei, pair), n) in seen {
+        let alive = w.eps[ei].conns.values().any(|c| c.pair == pair && !c.c.is_drained());
+        let dst = w.eps[ei].addr;
+        for (seq, tok) in &n.tokens {
+            if alive && !n.retired_sent.contains(seq) {
+                // possibly the token in use (that one legitimately resets); only those the
+                // connection itself announced as retired are certainly not
+                continue;
+            }
+            for src in &n.srcs {
+                if injected >= 400 {
+                    break;
+                }
+                let n = 25 + r.usize(40);
+                let mut data = r.bytes(n);
+                data[0] = 0x40 | (data[0] & 0x3f);
+                data.extend_from_slice(tok);
+                w.inject(at, *src, dst, None, data, 0, true);
+                at += 50_000;
+                injected += 1;
+            }
+        }
+    }
+    w.mon.cnt.add("c09.retired_tokens_offered", injected);
+    if injected == 0 {
+        return;
+    }
+    let deadline = at + 50_000_000;
+    let mut steps = 0;
+    while w.now < deadline && steps < 20_000 && w.step() {
+        steps += 1;
+    }
+    for (ei, ch, _) in alive_before {
+        if let Some(c) = w.eps[ei].conns.get(&ch) {
+            if c.app.lost.iter().any(|l| l.contains("Reset")) {
+                let pair = c.pair;
+                w.mon.violate("C09", format!("conn {ei}/{ch} (pair {pair:x}) was reset by a stateless reset carrying a retired token"));
+            }
+        }
+    }
+    // a datagram routed to a forgotten handle is reported by the world under C08 (termination);
+    // here it is a routing failure in its own right
+    let moved: Vec<String> = w.led.viol.iter().filter(|v| v.prop == "C08" && v.msg.contains("drained and was forgotten")).map(|v| v.msg.clone()).collect();
+    for m in moved {
+        w.mon.violate("C09", format!("{m} (a stateless reset carrying one of its retired reset tokens)"));
+    }
+}
+
 fn case(seed: u64, lane: Lane, trace: bool, stale_focus: bool) -> CaseOut {
     let mut r = Rng::new(seed ^ 0xC09);
     let mut k = Knobs::default();
@@ -96,6 +157,7 @@ fn case(seed: u64, lane: Lane, trace: bool, stale_focus: bool) -> CaseOut {
         h.ops.push((at + gap, Op::Connect { from: ep, tcfg: Box::new(h.cli_t[ep - 1].clone()), app: Box::new(h.cli_app[ep - 1].clone()) }));
     }
     let mut ran = run_honest(&h, trace, 40_000, 900_000_000_000);
+    retired_token_phase(&mut ran.w, &mut r, lane);
     // isolation: connections that were not closed on purpose (nor share an endpoint with a
     // closed one's peer) must not have been lost
     let mut msgs = vec![];
